@@ -428,11 +428,24 @@ func TestVerifC11StatsSched(t *testing.T) {
 				}
 			}
 		}
+		bad := 0
+		for _, r := range o.Runs {
+			if r.Out != "ok" {
+				bad++
+			}
+		}
 		for _, sc := range scheds {
 			if sc == nil {
 				sc = []int{}
 			}
-			o.Runs = append(o.Runs, ssExec(t, pfx, c, sc, nil))
+			if bad >= 3 { // three failing schedules name the defect; a hang costs seconds per step
+				break
+			}
+			r := ssExec(t, pfx, c, sc, nil)
+			if r.Out != "ok" {
+				bad++
+			}
+			o.Runs = append(o.Runs, r)
 		}
 		res[ci] = o
 	}
